@@ -39,6 +39,11 @@ func (vt *Model) osc(data string) {
 			vt.pty.WriteString(resp)
 		}
 	case "52":
+		if vt.vx == nil {
+			// We haven't been drawn yet, there is no host to pass
+			// the clipboard to
+			return
+		}
 		_, val, _ := cutString(val, ";")
 		decodedBytes, err := base64.StdEncoding.DecodeString(val)
 		if err != nil {
